@@ -46,6 +46,17 @@ var stdPaths = map[string]string{
 	"template": "text/template", "cmp": "cmp", "maps": "maps", "slices": "slices", "types": "go/types", "zlib": "compress/zlib", "sql": "database/sql", "big": "math/big", "unsafe": "unsafe",
 }
 
+var keepers = map[string]string{
+	"time": "time.Now", "io": "io.EOF", "os": "os.Args", "sync": "sync.NewCond", "bytes": "bytes.NewBuffer", "strings": "strings.NewReader",
+	"regexp": "regexp.MustCompile", "context": "context.Background", "http": "http.DefaultClient", "ioutil": "ioutil.Discard", "fmt": "fmt.Sprint",
+	"errors": "errors.New", "sort": "sort.Strings", "strconv": "strconv.Itoa", "filepath": "filepath.Join", "path": "path.Join",
+	"utf8": "utf8.RuneError", "unicode": "unicode.IsUpper", "math": "math.Pi", "rand": "rand.Int", "reflect": "reflect.TypeOf",
+	"draw": "draw.Src", "image": "image.NewRGBA", "atomic": "atomic.AddInt32", "url": "url.Parse", "json": "json.Marshal", "exec": "exec.Command",
+	"bufio": "bufio.NewReader", "log": "log.Println", "flag": "flag.Parse", "httptest": "httptest.NewRecorder", "syscall": "syscall.Getpid",
+	"binary": "binary.BigEndian", "hex": "hex.EncodeToString", "net": "net.Dial", "template": "template.New", "zlib": "zlib.NewReader",
+	"sql": "sql.Open", "big": "big.NewInt", "types": "types.NewPackage",
+}
+
 var (
 	metaRE = regexp.MustCompile(`\$\*?\w+`)
 	qualRE = regexp.MustCompile(`\b([a-z][a-z0-9]*)\.[A-Za-z_]`)
@@ -165,6 +176,21 @@ func fileFor(body string, extraImports map[string]string) string {
 		fmt.Fprintf(&b, "\t%q\n", need[n])
 	}
 	b.WriteString(")\n\nfunc synthesised(" + sig + ") {\n" + body + "}\n")
+	// one more use of every imported package: whether an import stays used after a fix is a question about
+	// the rest of the file, not about the fix
+	kept := false
+	for _, n := range names {
+		if k, ok := keepers[n]; ok && need[n] == stdPaths[n] {
+			if !kept {
+				b.WriteString("\nvar (\n")
+				kept = true
+			}
+			b.WriteString("\t_ = " + k + "\n")
+		}
+	}
+	if kept {
+		b.WriteString(")\n")
+	}
 	return b.String()
 }
 
@@ -209,7 +235,12 @@ func (y *S) Search(pattern string, extraImports map[string]string, budget int, a
 			}
 		}
 		cands := append(append([]Cand(nil), literals...), params...)
-		for _, wr := range wrappers {
+		wrs := wrappers
+		if _, err := parser.ParseExpr(metaRE.ReplaceAllString(pat, "x")); err == nil {
+			// an expression: use its value (a bare expression statement is an artificial context)
+			wrs = []struct{ pre, post string }{wrappers[1], wrappers[2], wrappers[0], wrappers[3]}
+		}
+		for _, wr := range wrs {
 			for _, seed := range []string{"s", "n", "b", "t"} {
 				build := func(assign map[string]string) (string, [][2]int, []string, int) {
 					body, spans, owners := render(pat, occs, assign)
@@ -245,9 +276,11 @@ func (y *S) Search(pattern string, extraImports map[string]string, budget int, a
 					rounds = 1
 				}
 				parses := true
-				for round := 0; round < rounds && parses; round++ {
-					for _, v := range vars {
+				unviable := false
+				for round := 0; round < rounds && parses && !unviable; round++ {
+					for vi, v := range vars {
 						var ok []string
+						allOutside := true // every candidate leaves an error that no metavariable owns
 						for _, c := range cands {
 							try := map[string]string{}
 							for k, x := range cur {
@@ -258,7 +291,20 @@ func (y *S) Search(pattern string, extraImports map[string]string, budget int, a
 							fset, _, _, _, errs := y.check(src)
 							spent++
 							bad := false
+							outside := false
 							for _, te := range errs {
+								if fset != nil {
+									p := fset.Position(te.Pos).Offset - off
+									in := false
+									for _, sp := range spans {
+										if p >= sp[0] && p <= sp[1] {
+											in = true
+										}
+									}
+									if !in {
+										outside = true
+									}
+								}
 								if fset == nil {
 									if debug {
 										fmt.Println("DBG parse", te.Msg, src)
@@ -279,11 +325,18 @@ func (y *S) Search(pattern string, extraImports map[string]string, budget int, a
 							if !bad {
 								ok = append(ok, c.Expr)
 							}
+							if !outside {
+								allOutside = false
+							}
 							if !parses {
 								break
 							}
 						}
 						if !parses {
+							break
+						}
+						if round == 0 && vi == 0 && allOutside {
+							unviable = true // e.g. a two-valued call under "_ =": no assignment can help
 							break
 						}
 						if len(ok) > 0 || round == 0 {
@@ -300,7 +353,7 @@ func (y *S) Search(pattern string, extraImports map[string]string, budget int, a
 						}
 					}
 				}
-				if !parses {
+				if !parses || unviable {
 					break // this wrapper cannot hold the pattern; seeds do not matter
 				}
 				// phase 2: bounded product over the surviving candidates
